@@ -51,7 +51,7 @@ def gen_history(rng, k=None, exhaustive=None):
         # how an all-zero batch arrives: filtered to an empty result by the forward task, or as explicit -inf columns
         empty_form = rng.random() < 0.5
         ops.append({'cands': cands, 'n': n, 'empty_form': empty_form})
-    return {'k': k, 'events': events, 'rows': rows, 'use_scale': use_scale, 'ops': ops, 'style': style}
+    return {'k': k, 'events': events, 'rows': rows, 'use_scale': use_scale, 'ops': ops, 'style': style, 'reuse_buffers': rng.random() < 0.5}
 
 
 def drive(sm, case):
@@ -75,6 +75,13 @@ def drive(sm, case):
                 s.append(mts, lnp, op['n'], scale_factor=sc)
             else:
                 s.append(mts, lnp, op['n'])
+        # the caller's buffers are reused for the next batch: what was stored must not be a view of them
+        if case.get('reuse_buffers') and isinstance(mts, np.matrix) and mts.size:
+            mts[:] = -777.0
+            if isinstance(lnp, np.matrix) and lnp.size:
+                lnp[:] = -555.0
+            if isinstance(sc, np.ndarray) and sc.size:
+                sc[:] = -333.0
     return s
 
 
